@@ -101,6 +101,8 @@ func matrixCases() []caseSpec {
 			out = append(out, caseSpec{id: id("fresh"), slots: 1, steps: []step{{kind: "create", slot: 0, typ: a, variant: "valid", quiet: true}, {kind: op, slot: 0, typ: b, variant: "valid"}}})
 			if a == b {
 				out = append(out, caseSpec{id: id("later-anchor"), slots: 1, steps: []step{cr, {kind: "updates", slot: 0, n: 2}, {kind: "upgrade", slot: 0, typ: b, variant: "later"}, {kind: "upgrade", slot: 0, typ: b, variant: "valid"}}})
+				// the vote re-installs the contents the client started from after it has moved on (resolved to "valid" where the generator has no such notion)
+				out = append(out, caseSpec{id: id("back-to-anchor"), slots: 1, steps: []step{cr, {kind: "updates", slot: 0, n: 3}, {kind: "upgrade", slot: 0, typ: b, variant: "back-to-anchor"}, {kind: "updates", slot: 0, n: 3}}})
 			} else {
 				// via a third type
 				c := other(a, 0)
@@ -282,6 +284,10 @@ func (c *caseRun) step(st step) {
 		var err error
 		variant := st.variant
 		switch {
+		case (variant == "back-to-anchor" || variant == "later" && sl.updates > 0 && c.rng.Intn(3) == 0) && sl.exists && sl.typ == typ && (typ == tBSC || typ == tETH) && sl.in != nil && !sl.unusable && sl.in.fact != nil:
+			variant = "back-to-anchor"
+			in = e.sameAnchorInst(c.rng, sl.in)
+			r.Count(typ+"_upgrades_back_to_the_installed_anchor_after_updates", 1)
 		case variant == "later" && sl.exists && sl.typ == typ && sl.in != nil && !sl.unusable:
 			in, err = e.laterInst(c.rng, sl.in)
 		case variant == "flawed":
@@ -290,7 +296,7 @@ func (c *caseRun) step(st step) {
 				variant = "valid"
 			}
 		default:
-			if variant == "later" {
+			if variant == "later" || variant == "back-to-anchor" {
 				variant = "valid"
 			}
 			in, err = e.newInst(c.rng, typ, st.hint)
